@@ -304,7 +304,7 @@ def c08(tier, hook=None):
     if not hook:
         # histories of calls on one derived type (MC_Life): this property's calls judged with state
         import checks_life
-        checks_life.life_stage(ck, tier, ["C08"], tag="life_c08")
+        checks_life.life_stage(ck, tier, ["C08"], tag="life_c08", focus="ops")
     return ck.finish() if not hook else None
 
 
@@ -858,7 +858,7 @@ def c18(tier, hook=None):
     if not hook:
         # histories of calls on one derived type (MC_Life): this property's calls judged with state
         import checks_life
-        checks_life.life_stage(ck, tier, ["C18"], tag="life_c18")
+        checks_life.life_stage(ck, tier, ["C18"], tag="life_c18", focus="deref")
     return ck.finish() if not hook else None
 
 
